@@ -94,6 +94,7 @@ class QGen:
         self.excluded: Dict[str, int] = {}
         self._bare = False
         self.safe = 0  # >0: no partial operations (First / index) are generated
+        self._in_arg = False
         self.noflat = 0  # >0: no inner SelectMany (aggregate / First over a flattened sequence is a recorded finding)
 
     # ------------------------------------------------------------- helpers
@@ -402,6 +403,14 @@ class QGen:
                     self.labels.add("enum-argument")
                     return (f"{txt}.{m.name}({e.dotted}.{self.pick(e.values)})", "double")
                 arg = self.lit_int() if m.args[0] == "int" else self.lit_dbl()
+                if m.args[0] != "int" and not self.safe and not self._in_arg and self.chance(1, 3):
+                    # an argument that is computed in a block of its own (First() of a vector, an aggregate, a conditional)
+                    self._in_arg = True
+                    try:
+                        arg, _k = self.num(scope, 1)
+                    finally:
+                        self._in_arg = False
+                    self.labels.add("method-with-computed-arg")
                 return (f"{txt}.{m.name}({arg})", "double")
         if self.chance(1, 2):
             return (self.lit_int(), "int")
@@ -409,7 +418,11 @@ class QGen:
 
     def nonzero(self, scope, fuel) -> Tuple[str, str]:
         """a number constructed to be >= 1 in magnitude (denominators)"""
-        k = self.weighted([(3, "sq"), (2, "count"), (2, "lit"), (1, "abs"), (2, "prod")])
+        k = self.weighted([(3, "sq"), (2, "count"), (2, "lit"), (1, "abs"), (2, "prod"), (1, "absbool")])
+        if k == "absbool":
+            # abs of a truth value is the integer 0 / 1
+            self.labels.add("math")
+            return (f"(abs({self.boolean(scope, 0)}) + {self.pick(['1', '2', '100'])})", "int")
         if k == "lit":
             return (self.pick(["2", "4", "0.5", "3", "8.0"]), "int")
         if k == "count":
@@ -780,7 +793,20 @@ class QGen:
             t, kind = self.num(scope, fuel)
             return (t, TNum(kind))
         v = self.newvar(scope, "j")
-        inner = self.unbare(self.bind(scope, v, TObj(os_[1])), self.numseq(self.bind(scope, v, TObj(os_[1])), fuel - 1))
+        vm2 = [m for m in self.s.classes[os_[1]].methods if m.kind == "vec"]
+        if vm2 and self.chance(1, 3):
+            m2 = self.pick(vm2)
+            r2 = (f"{v}.{m2.name}()", m2.ctype)
+            self._bare = True
+        else:
+            r2 = self.numseq(self.bind(scope, v, TObj(os_[1])), fuel - 1)
+        if r2 is not None and self._bare and self.chance(2, 3):
+            # a vector-valued method (declared by value or by pointer) as it is: the inner level of the 2-D column
+            self._bare = False
+            inner = r2
+            self.labels.add("column-2D-bare-vector-method")
+        else:
+            inner = self.unbare(self.bind(scope, v, TObj(os_[1])), r2)
         if inner is None:
             t, kind = self.num(scope, fuel)
             return (t, TNum(kind))
@@ -836,7 +862,9 @@ def dataset_text(schema: Schema, extra_md: Sequence[dict] = (), with_types: bool
 
 @st.composite
 def queries(draw, schema: Schema, feat: Features = None, fuel_range=(1, 3), extra_md: Sequence[dict] = ()):
-    feat = feat or Features()
+    import dataclasses as _dc
+
+    feat = _dc.replace(feat) if feat is not None else Features()  # a private copy: switches are flipped while generating
     g = QGen(draw, schema, feat)
     fuel = draw(st.integers(*fuel_range))
     ds = dataset_text(schema, extra_md)
